@@ -57,6 +57,16 @@ LEFTOVER_FORMS = {
 }
 
 
+def _no_abbreviation(node, key):
+    """A foreign key that is a proper textual prefix of a key the node defines cannot be written as an option NAME:
+    argparse reads `--ya=1` as an abbreviation of the defined option `--yaw` (or reports it as ambiguous).  That is
+    a different input, not a foreign key; inside JSON values the same key is expressible."""
+    if node["label"] == "init_args":
+        return  # --obj.init_args.<key>= is not an option of any parser: the key is looked up literally
+    if any(name != key and name.startswith(key) for name in node["fields"]):
+        raise Inexpressible("a truncated key written as an option name is an abbreviation of the defined option")
+
+
 def argv_tokens(rec, value, style, leftover=None, _depth=0):
     """Tokens for one parser level (and, recursively, the selected subcommand levels).
 
@@ -72,6 +82,7 @@ def argv_tokens(rec, value, style, leftover=None, _depth=0):
             continue
         field = rec["fields"].get(key)
         if field is None:
+            _no_abbreviation(rec, key)
             toks.append(f"--{key}={text(v)}")
         elif style == "json":
             _argv_json(field[0], v, key, toks)
@@ -99,6 +110,7 @@ def _argv_json(node, v, name, toks):
         for key, sub in v.items():
             field = node["fields"].get(key)
             if field is None:
+                _no_abbreviation(node, key)
                 toks.append(f"--{name}.{key}={text(sub)}")
             else:
                 _argv_json(field[0], sub, f"{name}.{key}", toks)
@@ -122,6 +134,7 @@ def _argv_flat(node, v, name, toks, style):
                     # --obj.init_args.init_args=1 is read as "--obj.init_args=1" (assign the whole init_args), not as
                     # a key named init_args inside init_args; the JSON spellings express that key
                     raise Inexpressible("a key named init_args inside init_args cannot be addressed by a dotted option")
+                _no_abbreviation(node, key)
                 toks.append(f"--{name}.{key}={text(sub)}")
             else:
                 _argv_flat(field[0], sub, f"{name}.{key}", toks, style)
@@ -374,8 +387,13 @@ def render(shape_name, cfg, channel, leftover=None):
     raise AssertionError(channel)
 
 
-def deliver(shape_name, cfg, channel, leftover=None):
+REUSABLE = ("object", "object-dotted", "string", "string-yaml", "config-arg", "config-file", "path", "sub-config",
+            "argv-json", "argv-flat", "argv-short", "argv-append", "env-json", "env-flat")
+
+
+def deliver(shape_name, cfg, channel, leftover=None, parser=None):
     """Build a FRESH parser for the shape and parse `cfg` through `channel` ("name[:exit][:nodefaults]").
+    `parser`: deliver to this already built (used) parser instead of a fresh one (channels in REUSABLE only).
 
     Returns (outcome dict of mc.util.outcome or {"kind": "inexpressible", "why": ...}, rendering)."""
     from mc.util import restored_process_state, scratch_dir
@@ -383,6 +401,12 @@ def deliver(shape_name, cfg, channel, leftover=None):
     shape = S.SHAPES[shape_name]
     base, *flags = channel.split(":")
     exit_on_error = "exit" in flags
+    if parser is not None:
+        assert base in REUSABLE and not exit_on_error, channel
+        given = parser
+        S_build = lambda *a, **k: given  # noqa: E731
+    else:
+        S_build = S.build_parser
     kw = {"defaults": False} if "nodefaults" in flags else {}
     try:
         kind, data = render(shape_name, cfg, channel, leftover)
@@ -390,35 +414,35 @@ def deliver(shape_name, cfg, channel, leftover=None):
         return {"kind": "inexpressible", "why": str(ex)}, None
     shown = copy.deepcopy(data)
     if base in ("object", "object-dotted"):
-        parser = S.build_parser(shape, exit_on_error=exit_on_error)
+        parser = S_build(shape, exit_on_error=exit_on_error)
         return outcome(parser.parse_object, data, **kw), shown
     if base == "object-namespace":
-        parser = S.build_parser(shape, exit_on_error=exit_on_error)
+        parser = S_build(shape, exit_on_error=exit_on_error)
         return outcome(parser.parse_object, as_namespace(S.parser_schema(shape), data), **kw), shown
     if base == "default-config-file":
         with scratch_dir() as d:
             path = os.path.join(d, "defaults.json")
             with open(path, "w") as f:
                 f.write(data)
-            parser = S.build_parser(shape, exit_on_error=exit_on_error, default_config_files=[path])
+            parser = S_build(shape, exit_on_error=exit_on_error, default_config_files=[path])
             return outcome(parser.parse_args, [], **kw), shown
     if base in ("string", "string-yaml"):
-        parser = S.build_parser(shape, exit_on_error=exit_on_error)
+        parser = S_build(shape, exit_on_error=exit_on_error)
         return outcome(parser.parse_string, data, **kw), shown
     if base == "config-arg":
-        parser = S.build_parser(shape, exit_on_error=exit_on_error)
+        parser = S_build(shape, exit_on_error=exit_on_error)
         return outcome(parser.parse_args, ["--config", data], **kw), shown
     if base in ("config-file", "path"):
         with scratch_dir() as d:
             path = os.path.join(d, "cfg.json")
             with open(path, "w") as f:
                 f.write(data)
-            parser = S.build_parser(shape, exit_on_error=exit_on_error)
+            parser = S_build(shape, exit_on_error=exit_on_error)
             if base == "path":
                 return outcome(parser.parse_path, path, **kw), shown
             return outcome(parser.parse_args, ["--config", path], **kw), shown
     if kind == "argv":
-        parser = S.build_parser(shape, exit_on_error=exit_on_error)
+        parser = S_build(shape, exit_on_error=exit_on_error)
         return outcome(parser.parse_args, data, **kw), shown
     if kind == "env":
         with restored_process_state():
@@ -426,9 +450,9 @@ def deliver(shape_name, cfg, channel, leftover=None):
                 del os.environ[key]
             os.environ.update(data)
             if base in ("env-args", "env-config"):
-                parser = S.build_parser(shape, default_env=True, exit_on_error=exit_on_error)
+                parser = S_build(shape, default_env=True, exit_on_error=exit_on_error)
                 return outcome(parser.parse_args, [], **kw), shown
-            parser = S.build_parser(shape, exit_on_error=exit_on_error)
+            parser = S_build(shape, exit_on_error=exit_on_error)
             return outcome(parser.parse_env, **kw), shown
     raise AssertionError(channel)
 
@@ -468,3 +492,68 @@ def deliver_validate(shape_name, base_cfg, mut, fname, fvalue):
                 target[key] = None
     shown = repr(ns)
     return outcome(parser.validate, ns), shown
+
+
+# ------------------------------------------------------------------------------------------------
+# used parsers: calls made on a parser BEFORE the judged call
+
+
+def selected_path(rec, value):
+    """Names of the selected subcommands of a configuration, root to leaf."""
+    subs = rec.get("subs")
+    if subs and value.get(subs["dest"]) in subs["choices"] and isinstance(value.get(value[subs["dest"]]), dict):
+        name = value[subs["dest"]]
+        return [name] + selected_path(subs["choices"][name], value[name])
+    return []
+
+
+def spoil_last_int(value):
+    """Replace the last int leaf (depth-first order) of a JSON value by the text LEFTOVER_VALUE - a value of the
+    wrong type.  Returns True when a leaf was replaced."""
+    items = list(value.items()) if isinstance(value, dict) else list(enumerate(value)) if isinstance(value, list) else []
+    for key, v in reversed(items):
+        if isinstance(v, int) and not isinstance(v, bool):
+            value[key] = LEFTOVER_VALUE
+            return True
+        if isinstance(v, (dict, list)) and spoil_last_int(v):
+            return True
+    return False
+
+
+PRIORS = {
+    # every value on the command line, then the --config option of the innermost selected parser with a document
+    # that cannot be applied (a wrongly typed leaf): the parse fails WHILE a configuration source is being merged
+    # into the values parsed so far
+    "argv+config-fails": "fails",
+    # the same with the valid document: a complete successful parse
+    "argv+config-ok": "ok",
+    # the whole configuration with a wrongly typed leaf as text: fails while the text is loaded
+    "string-fails": "fails",
+}
+
+
+def priors_applicable(shape_name, cfg):
+    """The failing priors need an int leaf to spoil in the section of the innermost selected parser."""
+    schema = S.parser_schema(S.SHAPES[shape_name])
+    section = copy.deepcopy(cfg)
+    for name in selected_path(schema, cfg):
+        section = section[name]
+    return spoil_last_int(section)
+
+
+def prior_call(parser, shape_name, cfg, prior):
+    """Perform one call of the family PRIORS on `parser` with the (valid) configuration `cfg`; returns its outcome."""
+    schema = S.parser_schema(S.SHAPES[shape_name])
+    cfg = copy.deepcopy(cfg)
+    if prior == "string-fails":
+        assert spoil_last_int(cfg)
+        return outcome(parser.parse_string, json.dumps(cfg))
+    assert prior in ("argv+config-fails", "argv+config-ok"), prior
+    tokens = argv_tokens(schema, cfg, "json")
+    section, rec = cfg, schema
+    for name in selected_path(schema, cfg):
+        section, rec = section[name], rec["subs"]["choices"][name]
+    section = {k: v for k, v in section.items() if not (rec.get("subs") and k in (rec["subs"]["dest"], *rec["subs"]["choices"]))}
+    if prior == "argv+config-fails":
+        assert spoil_last_int(section)
+    return outcome(parser.parse_args, tokens + ["--config", json.dumps(section)])
